@@ -73,6 +73,20 @@ fn coeffs(fs: Hertz<f32>, f0: Hertz<f32>) -> Coefficients<f32> {
     Coefficients::<f32>::from_params(Type::SinglePoleLowPass, fs, f0, 0.0_f32).unwrap()
 }
 
+#[cfg(feature = "verif-hooks")]
+impl GlideProcessor {
+    /// `(min_fc, max_fc, fs, cached_t, filter)`
+    pub fn verif_state(&self) -> (f32, f32, f32, f32, DirectForm1<f32>) {
+        (
+            self.min_fc,
+            self.max_fc,
+            self.fs.hz(),
+            self.cached_t,
+            self.lpf,
+        )
+    }
+}
+
 #[cfg(test)]
 mod tests {
     use super::*;
